@@ -11,7 +11,7 @@ EXTENDS TaskTrees
 VARIABLE case
 CaseSpec == case \in Cases /\ [][UNCHANGED case]_case
 CaseTask == Build(case[1], <<case[2]>>)
-I_RoundTrip == ~IsRej(CaseTask) => Deser(Ser(CaseTask)) = CaseTask                    \* hence Ser (the key) is injective
+I_RoundTrip == ~IsRej(CaseTask) => Deser(Ser(CaseTask)) = KC(CaseTask)                    \* hence Ser (the key) is injective
 I_NormIdempotent == LET n == Norm("p", case[2]) IN IsRej(n) \/ Norm("p", n) = n
 I_DepsAreTasks == ~IsRej(CaseTask) => \A i \in DOMAIN DepsOf(CaseTask) : Kind(DepsOf(CaseTask)[i]) = "task"
 I_RejectHasPath == IsRej(CaseTask) => Atom(CaseTask) # ""
